@@ -133,3 +133,21 @@ try:
     CLOSED.append(registration_consistency)
 except NameError:
     CLOSED = [registration_consistency]
+
+# ---- the recogniser front door: the culture handed to the factory is the nearest supported culture of the REQUESTED culture,
+#      or of the recogniser's own target culture when none is requested (any letter case of the supported codes)
+_RECOG = lambda **f: Rec(RT + 'recognizer.py::Recognizer',
+                         dict(dict(options=Int(0, 7), model_factory=Config(funcs=dict(get_model=(['str', 'str', 'bool', 'int'], 'int', None, None)))), **f))
+CONTRACTS += [
+    Contract('c17.recognizer.get_model.requested_culture', RT + 'recognizer.py::Recognizer.get_model', ['C17'], max_paths=500,
+             params=dict(k=Int(0, 12), mask=Int(0, 15), culture=Expr('case_variant(SUPPORTED[k], mask)'),
+                         self=_RECOG(target_culture=Str(6)), model_type_name=Str(6), fallback_to_default_culture=Bool()),
+             ensures=[('factory-is-asked-for-the-lower-cased-requested-culture',
+                       'result == self.model_factory.get_model(model_type_name, SUPPORTED[k], fallback_to_default_culture, self.options)')]),
+    Contract('c17.recognizer.get_model.target_culture', RT + 'recognizer.py::Recognizer.get_model', ['C17'], max_paths=500,
+             params=dict(k=Int(0, 12), mask=Int(0, 15), culture=Const(None),
+                         self=_RECOG(target_culture=Expr('case_variant(SUPPORTED[k], mask)')), model_type_name=Str(6),
+                         fallback_to_default_culture=Bool()),
+             ensures=[('factory-is-asked-for-the-lower-cased-target-culture',
+                       'result == self.model_factory.get_model(model_type_name, SUPPORTED[k], fallback_to_default_culture, self.options)')]),
+]
